@@ -11,7 +11,8 @@ def claim(pid, text, note, technique, ref):
 
 claim("C19",
       "Coq theorems over all declaration lists and all results of the unstable ID sort (exactly-once, grouping, order, permutation invariance), "
-      "tied to generator.WriteDeclarations by evaluating the model (vm_compute) on every enumerated/random list the real function was run on.",
+      "tied to generator.WriteDeclarations by evaluating the model (vm_compute) on every enumerated/random list the real function was run on; "
+      "the premise of the invariance theorem (equal IDs carry equal content) is evaluated in Coq on the lists the real generators hand to WriteDeclarations for corpus modules and the repository's fixtures.",
       "Trusted: Coq kernel + vm_compute; sort.Slice/SliceStable are a correct (un)stable sort; the correspondence is exhaustive only up to the stated length.",
       "Coq proof (Permutation/StronglySorted) + model/implementation correspondence", "DESIGN.md §5 C19")
 
